@@ -4,6 +4,7 @@
 # usage: selftest/run.sh <Cxx> <patch-file | revert:<commit>> [tier]
 set -u
 P=$1; PATCH=$2; TIER=${3:-quick}
+[[ "$PATCH" != revert:* ]] && PATCH=$(readlink -f "$PATCH")
 NAME=$(basename "$PATCH" | tr ':/' '__')
 D=/tmp/vsx/$P-$NAME-$$
 mkdir -p $D && cp -r /repo/include /repo/src $D/ || exit 3
